@@ -35,6 +35,9 @@ class SchedReader(AudioReader):
         if getattr(self, "vf_fault_at", None) is not None and self.vf_reads_started == self.vf_fault_at:
             self.vf_fault_raised = True
             raise OSError("injected source fault")  # a device error in the middle of the stream
+        gate = getattr(self, "vf_gate", None)
+        if gate is not None and self.vf_reads_started > gate[0] and not gate[1]():
+            s.wait_until(gate[1])  # a live source that has nothing more to give until something else has happened
         victim = getattr(self, "vf_victim", None)
         if victim is not None:
             # how many blocks were read since the writer thread last ran (its backlog, whatever it keeps it in)
